@@ -62,6 +62,8 @@ class Violation:
 
 
 def load_known():
+    if os.environ.get("VERIF_IGNORE_KNOWN"):  # debugging aid: show every violation
+        return []
     if not os.path.exists(KNOWN_FINDINGS):
         return []
     with open(KNOWN_FINDINGS) as f:
